@@ -325,6 +325,17 @@ func genC03(r *gen.Rand) *C03Case {
 		}
 		c.Linear = false
 		c.Shape = append(c.Shape, "twin-chains")
+	case 15: // $parent list mixing wildcards and plain names: entries in the order written, each wildcard's matches in name order
+		for _, nm := range []string{"m1", "m2", "n1", "n2", "a0", "z9"} {
+			put(filepath.Join(dir, nm+"."+gen.PickAny(r, exts)), map[string]any{"list": []any{nm}, "w": nm, "k_" + nm: nm})
+		}
+		lists := [][]any{
+			{"z9", "m*"}, {"m*", "a0"}, {"n*", "m*"}, {"m2", "m*"}, {"m*", "m1"},
+			{"z9", "n*", "a0"}, {"n*", "a0", "m*"}, {"a0", "m*", "z9"},
+		}
+		setParent(top, lists[r.Intn(len(lists))], r.Chance(0.2))
+		c.Linear = false
+		c.Shape = append(c.Shape, "parent-list-mixed")
 	case 8: // $parent with invalid / conflicting values
 		switch r.Intn(4) {
 		case 0:
